@@ -32,6 +32,10 @@ WS_FORMULAS = [
     ['A1', '&', '" "', '&', 'B1'],
     ['MAX', '(', 'A1:B2', ',', '5', ')', '-', 'MIN', '(', 'A1', ';', '2', ')'],
     ['VLOOKUP', '(', 'A1', ',', 'A1:B2', ',', '2', ',', 'FALSE', ')'],
+    # malformed (adjacent operands): rejected in the canonical spelling, so every whitespace variant must be rejected too
+    ['SUM', '(', '1', '2', ')'],
+    ['SUM', '(', 'B1', '2', ',', '3', ')'],
+    ['MAX', '(', 'B1:B', '2', ',', 'C1', ')'],
 ]
 GAPS = [' ', '  ', '\n', '\t', '']
 
@@ -50,7 +54,8 @@ def _ws_job(fi, timeout):
     def emit(parts):
         text = '=' + ''.join(parts)
         try:
-            return ('code', translate_one(text)._cell_translations['_0_5_0'])
+            ctx = translate_one(text)
+            return ('code', ctx._cell_translations['_0_5_0'], repr(sorted(ctx._sub_cell_translations.items())))
         except E2PyclException:
             return ('rejected',)
         except Exception as e:
@@ -116,6 +121,7 @@ def handle(report, res, pid, kinds):
     """shared by C05 and C06: interpret job results; counterexamples are replayed through the real lexer on a canonical spelling"""
     kfs = findings.for_property(pid)
     total = 0
+    history_checked = []
     for name, r in sorted(res.items()):
         cname = 'parser.' + name
         if 'error' in r:
@@ -130,10 +136,32 @@ def handle(report, res, pid, kinds):
                 report.condition(cname, 'E2', 'violated', r['secs'], r['paths'], f'{f["text"]!r} -> {f["got"]} but the canonical spelling -> {f["base"]}')
                 report.violation(cname, f['text'], f'variant gives {f["got"]}, canonical spelling gives {f["base"]}')
                 continue
+            if not f['classes'] or '?' in f['classes']:
+                # no model for this path: the branch structure seen on replay differed from the recorded one, i.e. the parser did not behave
+                # deterministically on the same token-class prefix (its result depends on earlier parses).  Native confirmation: history probe.
+                if not history_checked:
+                    history_checked.append(e2.run_jobs([('history', pc.history_probe, ())], 1, deadline=300)['history'])
+                hp = history_checked[0]
+                if isinstance(hp, tuple):
+                    report.condition(cname, 'E2', 'violated', r['secs'], r['paths'], f'parse of {hp[1]!r} depends on the formula parsed before ({hp[0]!r})')
+                    if len(history_checked) == 1:
+                        history_checked.append('reported')
+                        report.violation('parser.history', f'{hp[0]}   (rejected)   then   {hp[1]}', f'tree in a fresh process: {hp[2]} ... after the rejected formula: {hp[3]}')
+                else:
+                    report.condition(cname, 'E2', 'spurious', r['secs'], r['paths'], f'non-deterministic path without model; history probe found nothing ({hp})')
+                continue
             text = pc.canonical_text(f['classes'])
             again, lexed = pc.replay_text(text)
+            if again is None or again[0] not in kinds:
+                # a failure that depends on what was parsed before: replay after a rejected formula, in a child process with fresh parser state
+                for pre in ([pc.canonical_text(f['prev'])] if f.get('prev') else []) + pc.PRELUDES + [text + ' )', text + ' ) )']:
+                    rr = e2.run_jobs([('replay', pc.replay_text, (text, pre))], 1, deadline=60)['replay']
+                    if isinstance(rr, tuple) and rr[0] is not None and rr[0][0] in kinds:
+                        again, lexed = rr
+                        text = f'{pre}   (rejected)   then   {text}'
+                        break
             known = [e for e in kfs if e.get('formula') == text]
-            if again is not None and again[0] in kinds and lexed == ['EqOperatorToken'] + f['classes']:
+            if again is not None and again[0] in kinds and lexed[-len(f['classes']):] == f['classes']:
                 if known:
                     report.condition(cname, 'E2', 'known', r['secs'], r['paths'], known[0].get('what', ''))
                     report.known_finding(f'{text} -> {again} :: {known[0].get("what", "")}', key=known[0].get('what'))
